@@ -263,6 +263,9 @@ fn get_method(
                     if let Some(address) = override_values.address {
                         reffed_object.address = address;
                     }
+                    if override_values.allow_address_overlap {
+                        reffed_object.allow_address_overlap = true;
+                    }
                     if let Some(reset_value) = override_values.reset_value.clone() {
                         reffed_object.reset_value = Some(reset_value);
                         register_reset_value_function =
@@ -281,6 +284,9 @@ fn get_method(
 
                     if let Some(address) = override_values.address {
                         reffed_object.address = address;
+                    }
+                    if override_values.allow_address_overlap {
+                        reffed_object.allow_address_overlap = true;
                     }
                     if let Some(repeat) = override_values.repeat {
                         reffed_object.repeat = Some(repeat);
